@@ -1589,9 +1589,11 @@ OCTET_STRING_encode_uper(const asn_TYPE_descriptor_t *td,
 
 	/* Figure out whether size lies within PER visible constraint */
 
-    if(csiz->effective_bits >= 0) {
+    if(csiz->effective_bits >= 0 || ct_extensible) {
+        /* SIZE(lb..MAX,...): there is no upper bound to compare with */
         if((ssize_t)size_in_units < csiz->lower_bound
-           || (ssize_t)size_in_units > csiz->upper_bound) {
+           || (!(csiz->flags & APC_SEMI_CONSTRAINED)
+               && (ssize_t)size_in_units > csiz->upper_bound)) {
             if(ct_extensible) {
                 csiz = &asn_DEF_OCTET_STRING_constraints.size;
                 unit_bits = canonical_unit_bits;
